@@ -47,6 +47,10 @@ func newEnv() *env.Env {
 	e.Define("vbig", int64(1)<<62)
 	e.Define("vneg", int64(-5))
 	e.Define("vf", float64(1.5))
+	e.Define("vu", uint64(7))       // numbers of the other kinds a script gets from make(uint64), make([]byte, n)[i], make(float32), ...
+	e.Define("vby", []byte{1, 2})
+	e.Define("vf32", float32(2.5))
+	e.Define("vi8", int8(-3))
 	e.Define("vs", "ab")
 	e.Define("ve", "")
 	e.Define("vb", true)
